@@ -26,6 +26,44 @@ def matches(vals: list, want: Any, tol: float) -> bool:
     return any(values.close(v, want, tol, 1e-40) for v in vals if not (mpmath.isnan(v)))
 
 
+def matrix_case(r: int, c: int, rot: int, immutable: bool) -> tuple[str, str, str]:
+    from symplyphysics.docs.printer_latex import latex_str
+    rows = printspace.matrix_entries(r, c, rot)
+    M = (sp.ImmutableMatrix if immutable else sp.Matrix)(rows)
+    tex = latex_str(M)
+    key = f"matrix:{r}x{c}:{rot}:{'immutable' if immutable else 'mutable'}"
+    bad = parse_latex.well_formed(tex)
+    if bad:
+        return key, "matrix", f"{tex!r}: {bad}"
+    m = re.fullmatch(r"\\begin\{(\w+)\}\s*(.*?)\s*\\end\{(\w+)\}", tex, re.S)
+    if not m or m.group(1) != m.group(3):
+        return key, "matrix", f"{r} x {c} matrix rendered as {tex!r}: not one matrix environment"
+    body = m.group(2)
+    got = [printspace.split_top(row, "&", "{", "}") for row in printspace.split_top(body, "\\\\",
+        "{", "}")]
+    if [len(x) for x in got] != [c] * r:
+        return key, "matrix", (f"{r} x {c} matrix rendered as {tex!r}: row lengths "
+            f"{[len(x) for x in got]}")
+    syms = printspace.symbols()
+    tokens = {latex_str(s_): s_ for s_ in syms}
+    for i in range(r):
+        for j in range(c):
+            e = sp.sympify(rows[i][j])
+            try:
+                tree = parse_latex.read(got[i][j], list(tokens))
+            except parse_latex.Unread as ex:
+                return key, "matrix", f"entry {got[i][j]!r} of {tex!r} cannot be read: {ex}"
+            for pt in POINTS:
+                env = {t: mpmath.mpf(sp.Rational(pt[s_.display_name]).p) / sp.Rational(pt[
+                    s_.display_name]).q for t, s_ in tokens.items()}
+                rep = {s_: sp.Rational(pt[s_.display_name]) for s_ in syms}
+                want = values.mpc(sp.N(e.xreplace(rep), 40))
+                if not matches(parse_latex.evaluate_all(tree, env), want, 1e-25):
+                    return key, "matrix", (f"{r} x {c} matrix rendered as {tex!r}: entry ({i}, {j}) "
+                        f"reads as something else than {short(e, 60)}")
+    return key, "matrix", ""
+
+
 def canonical_case(d: Any) -> Optional[tuple[str, str, str]]:
     from symplyphysics.docs.printer_latex import latex_str
     try:
@@ -91,11 +129,17 @@ def catalogue_equation(value: Any) -> tuple[str, str]:
             atoms.add(a)
     fclasses = {f.func for f in value.atoms(sp.core.function.AppliedUndef)}
     tokens: dict[str, Any] = {}
-    for a in atoms:
+    for a in sorted(atoms, key=str):
         try:
-            tokens[latex_str(a)] = a
+            t = latex_str(a)
         except Exception:
             return "structure", ""
+        if t in tokens and tokens[t] != a and not isinstance(a, sp.Indexed) and not isinstance(
+                tokens[t], sp.Indexed):
+            # the reader of the page cannot tell the two apart: the formula denotes something else
+            return "read", (f"{short(tex, 140)}: two different symbols of the equation "
+                f"({display_of(tokens[t])}, {display_of(a)}) are both rendered as {t}")
+        tokens[t] = a
     ftokens = {}
     for f in fclasses:
         t = getattr(f, "display_latex", None) or f.__name__
@@ -162,7 +206,16 @@ def _work(item: tuple) -> dict:
     def count(o: str) -> None:
         res["outcomes"][o] = res["outcomes"].get(o, 0) + 1
 
-    if kind == "trees":
+    if kind == "matrices":
+        for r_, c_, rot in payload:
+            for imm in (False, True):
+                res["n"] += 1
+                key, outcome, viol = matrix_case(r_, c_, rot, imm)
+                res["keys"].append(key)
+                count(outcome)
+                if viol:
+                    res["violations"].append((key, viol, {"matrix": [r_, c_, rot, imm]}))
+    elif kind == "trees":
         for d in payload:
             res["n"] += 1
             try:
@@ -219,6 +272,7 @@ def main(run: Run) -> int:
     descs = rotate(list(printspace.space(run.thorough)), run.seed * 7919)
     items: list[tuple] = [("trees", c) for c in explore.chunked(descs, 400)]
     items += [("catalogue", c) for c in explore.chunked(catalogue.discover(), 12)]
+    items.append(("matrices", list(printspace.matrix_space())))
     for r in pmap(_work, items):
         n = r.pop("n")
         run.evaluations += n
@@ -243,6 +297,9 @@ def replay(case: dict) -> list[str]:
     if "tree" in case:
         r = canonical_case(explore.tup(case["tree"]))
         return [r[2]] if r and r[2] and r[1] != "unread" else []
+    if "matrix" in case:
+        r_, c_, rot, imm = case["matrix"]
+        return [v for v in [matrix_case(r_, c_, rot, imm)[2]] if v]
     members = dict(printspace.source_members(case["module"]))
     v = members.get(case["attr"])
     if v is None:
